@@ -12,7 +12,16 @@ void log_err(const char *f, ...) { (void)f; }
 void log_info(const char *f, ...) { (void)f; }
 void log_warn(const char *f, ...) { (void)f; }
 void cjet_get_random_bytes(void *b, size_t n) { uint8_t *p = b; for (size_t i = 0; i < n; i++) p[i] = nd_u8(); }
-size_t http_parser_execute(http_parser *p, const http_parser_settings *s, const char *d, size_t l) { (void)p; (void)s; (void)d; return l; }
+/* http_parser contract: consumes at most the bytes it is given; on a complete upgrade request it sets parser->upgrade.
+   hp_short / hp_upgrade choose its behaviour in the header-line obligation (default: consumes everything) */
+static int hp_short, hp_upgrade, hp_calls; static const char *hp_data; static size_t hp_len;
+size_t http_parser_execute(http_parser *p, const http_parser_settings *s, const char *d, size_t l)
+{
+	(void)s; hp_calls++; hp_data = d; hp_len = l;
+	if (hp_short) return l ? l - 1 : 0;
+	if (hp_upgrade) p->upgrade = 1;
+	return l;
+}
 int SHA1Reset(SHA1Context *c) { (void)c; return 0; }
 int SHA1Input(SHA1Context *c, const uint8_t *d, unsigned int l) { (void)c; (void)d; (void)l; return 0; }
 int SHA1Result(SHA1Context *c, uint8_t d[SHA1HashSize]) { (void)c; (void)d; return 0; }
@@ -214,6 +223,38 @@ void harness_header_eof(void)
 		phase == 0 ? ws_get_header(&WS, 0, 0) : phase == 1 ? ws_get_first_length(&WS, 0, 0) : phase == 2 ? ws_get_length16(&WS, 0, 0) :
 		phase == 3 ? ws_get_length64(&WS, 0, 0) : phase == 4 ? ws_get_mask(&WS, 0, 0) : ws_get_payload(&WS, 0, 0);
 	CHECK(r == BS_CLOSED && conn_freed && errors_reported == 1 && last_close_code() == 1001 && nrd == 0, "C05.eof_in_any_frame_phase_closes_with_1001");
+	WITNESS_END();
+}
+/* C13 / C05 - one header line of the HTTP phase handed to websocket_read_header_line: a line the parser rejects is
+ * answered with one HTTP error and the connection is released once; end of stream releases it without a response; a
+ * completed upgrade switches to frame reading; anything else asks for the next line. No websocket frame is ever
+ * written in this phase. */
+void harness_header_line(void)
+{
+	mk_ws(1);
+	WS.upgrade_complete = false;
+	size_t len = nd_size(); __CPROVER_assume(len <= 4);
+	uint8_t *line = malloc(len ? len : 1);
+	__CPROVER_assume(line != 0);
+	hp_short = nd_bool(); hp_upgrade = nd_bool();
+	enum bs_read_callback_return r = websocket_read_header_line(&WS, line, len);
+	CHECK(nwf == 0, "C13.no_websocket_frame_before_the_upgrade");
+	if (len == 0) {
+		CHECK(r == BS_CLOSED && conn_freed && errors_reported == 1 && http_errors == 0 && nrd == 0 && hp_calls == 0, "C13.end_of_stream_in_the_header_phase_releases_the_connection_once");
+		REACH("eof");
+	} else if (hp_short) {
+		CHECK(hp_calls == 1 && hp_data == (const char *)line && hp_len == len, "C13.parser_sees_exactly_the_line");
+		CHECK(r == BS_CLOSED && http_errors == 1 && CONN.status_code == HTTP_BAD_REQUEST, "C13.malformed_header_line_answered_with_400");
+		CHECK(conn_freed && errors_reported == 1 && nrd == 0, "C13.malformed_header_line_releases_the_connection_once_and_reads_no_more");
+		REACH("bad_line");
+	} else if (hp_upgrade) {
+		CHECK(r == BS_OK && !conn_freed && WS.upgrade_complete && nrd == 1 && RD[0].exact && RD[0].num == 1 && RD[0].cb == ws_get_header && RD[0].ctx == &WS, "C12.completed_upgrade_switches_to_frame_reading");
+		REACH("upgraded");
+	} else {
+		CHECK(r == BS_OK && !conn_freed && !WS.upgrade_complete && http_errors == 0 && nrd == 1 && !RD[0].exact && RD[0].cb == websocket_read_header_line && RD[0].ctx == &WS, "C13.next_header_line_requested");
+		REACH("next_line");
+	}
+	free(line);
 	WITNESS_END();
 }
 /* payload step: unmasked client frame refused; masked payload unmasked then dispatched; next header requested */
